@@ -2,6 +2,7 @@ from .data_container import DataContainer, CornerDataContainer
 from ..geometry import Vec
 from .. import utils
 from .. import config
+import numpy as np
 
 class RawMeshData:
     """
@@ -140,7 +141,11 @@ class RawMeshData:
 
     def _prepare_vertices(self):
         for iv in self.id_vertices:
-            self.vertices[iv] = Vec(self.vertices[iv])
+            v = Vec(self.vertices[iv])
+            if v.ndim==1 and v.size<3:
+                # planar input: pad with zeros so that vertices are always 3D (as done by from_arrays)
+                v = Vec(np.pad(v, (0, 3-v.size)))
+            self.vertices[iv] = v
 
     def _prepare_edges(self):
         N = len(self.vertices)
